@@ -13,6 +13,7 @@ TInit == Init /\ tid = 1 /\ l = 1 /\ bad = {}
 Ev == Traces[tid][l]
 StepOK(e) == CASE e.op = "start"  -> StartT(e.f)
                [] e.op = "eval"   -> EvalT(e.f, e.inb)
+               [] e.op = "reject" -> RejectedT
                [] e.op = "finish" -> FinishT(e.f)
                [] OTHER -> FALSE
 Obligations == (phase' = "done" => final' >= start') /\ allin'
